@@ -150,6 +150,8 @@ type c07Spec struct {
 	Skip0       interface{}   `json:"skipable_column0"` // nil unset
 	Skip        []interface{} `json:"skipable_columns"` // per column 1..n, nil unset
 	SetClear    bool          `json:"set_then_cleared"`
+	PreHeader   int           `json:"cells_of_an_earlier_header_row_replaced_by_the_real_one,omitempty"`
+	colsSeen    int
 	Aligns      []int         `json:"alignment_properties_set_on_columns_0_to_n,omitempty"` // 0 unset, 1 left, 2 right, 3 centre: belongs to other renderers and must not matter here
 	Staged      bool          `json:"staged_wrapper_reused"`
 	StageAt     int           `json:"first_render_after_rows"`
@@ -157,6 +159,35 @@ type c07Spec struct {
 }
 
 func (s *c07Spec) ncols() int {
+	if s.colsSeen > 0 {
+		return s.colsSeen
+	}
+	return s.liveCols()
+}
+
+// preHeader sets the earlier header row (replaced later by the real one), if the case has one.
+func (s *c07Spec) preHeader(t tabular.Table) {
+	s.colsSeen = 0
+	if s.PreHeader > 0 && s.HasHeader {
+		hs := make([]interface{}, s.PreHeader)
+		for i := range hs {
+			hs[i] = fmt.Sprintf("earlier header %d", i+1)
+		}
+		t.AddHeaders(hs...)
+	}
+}
+
+// noteCols asks the finished table how many columns it has when its history leaves that open (a wider header row
+// was replaced: C02 accepts both "columns are never lost" and "the count follows the live widths").
+func (s *c07Spec) noteCols(t tabular.Table) {
+	if s.PreHeader > 0 && s.HasHeader {
+		if n := t.NColumns(); n > s.liveCols() && n <= s.PreHeader {
+			s.colsSeen = n
+		}
+	}
+}
+
+func (s *c07Spec) liveCols() int {
 	n := 0
 	if s.HasHeader {
 		n = len(s.Header)
@@ -178,6 +209,7 @@ func (s *c07Spec) render(c *Ctx) (string, error) {
 	}
 	t := tabular.New()
 	jw := json.Wrap(t)
+	s.preHeader(t)
 	if s.HasHeader {
 		t.AddHeaders(s.headerItems()...)
 	}
@@ -215,6 +247,7 @@ func (s *c07Spec) render(c *Ctx) (string, error) {
 		t.Column(n).SetProperty(properties.Skipable, v) // nil withdraws what the first render saw
 	}
 	s.setAligns(t)
+	s.noteCols(t)
 	return jw.Render()
 }
 
@@ -296,6 +329,7 @@ func (s *c07Spec) headerItems() []interface{} {
 
 func (s *c07Spec) build() *tabular.ATable {
 	t := tabular.New()
+	s.preHeader(t)
 	if s.HasHeader {
 		t.AddHeaders(s.headerItems()...)
 	}
@@ -323,6 +357,7 @@ func (s *c07Spec) build() *tabular.ATable {
 		}
 	}
 	s.setAligns(t)
+	s.noteCols(t)
 	return t
 }
 
@@ -665,6 +700,9 @@ func c07Random(c *Ctx, i int, r *gen.R) {
 		s.Skip[j] = skipv()
 	}
 	s.SetClear = r.Chance(1, 5)
+	if r.Chance(1, 10) {
+		s.PreHeader = r.Range(1, n+2)
+	}
 	if r.Chance(1, 4) {
 		s.Aligns = make([]int, n+1)
 		for k := range s.Aligns {
